@@ -9,12 +9,13 @@
 (* The table comes from a JSON file (env VERIF_TEXTS) for trace validation *)
 (* and for the design models alike, so that Sem is a cached constant.      *)
 (***************************************************************************)
-EXTENDS SGR, TLC, Json, IOUtils
+EXTENDS CtrlSeq, TLC, Json, IOUtils
 
 TextTable == JsonDeserialize(IOEnv.VERIF_TEXTS)          \* Seq(Seq(Nat))
 TextIds   == DOMAIN TextTable
 Sem       == [i \in TextIds |-> SemOf(TextTable[i])]     \* evaluated once by TLC
 Touch     == [i \in TextIds |-> EffTouch(Sem[i].effs)]
+ParamOnly == [i \in TextIds |-> \A k \in DOMAIN TextTable[i] : IsParamByte(TextTable[i][k])]
 
 \* kinds: "S" AnsiString, "A" AnsiStr, "P" plain str, "N" not (yet) allocated
 Absent == [k |-> "N", t |-> << >>, s |-> << >>, p |-> << >>, b |-> 0]
@@ -63,6 +64,10 @@ SameDisplay(v, w) == /\ v.t = w.t
                      /\ \A i \in DOMAIN v.s : Display(v.s[i]) = Display(w.s[i])
 
 NoStyle(v) == \A i \in DOMAIN v.s : v.s[i] = << >>
+
+\* no setting whose reading by a terminal is undefined/ambiguous
+ValReadable(v) == \A i \in DOMAIN v.s : \A k \in DOMAIN v.s[i] : Sem[v.s[i][k][2]].cls # "other"
+NoEsc(t) == \A i \in DOMAIN t : t[i] # ESC
 
 ---------------------------------------------------------------------------
 \* Python slice normalisation of one bound (opt = << >> for None, <<n>> for an int)
